@@ -1360,6 +1360,10 @@ Theorem key_in_refuted : exists keys E,
   parse_items (join ", " keys ++ " in " ++ E) <> (strip E, Some keys).
 Proof. exists ["x"; "in"], "<% ctx().xs %>". split; vm_compute; [reflexivity | discriminate]. Qed.
 
+Theorem expr_in_refuted : exists E,
+  m_value E = Some (E, "") /\ parse_items E <> (strip E, None).
+Proof. exists "<% ctx().xs.where($ in list(1, 2)) %>". split; vm_compute; [reflexivity | discriminate]. Qed.
+
 (* --------------------------------------------------------------- non-vacuity *)
 
 Definition sample_entries : list entry :=
